@@ -15,11 +15,14 @@
        (the statement is additive in p).
      - EXACTNESS AT MAXIMAL RANKS (C08_full_rank_eigenpair): when the frame is unitary on the whole space (P P^H = I), an
        eigenpair (lambda, y) of the micro matrix P^H A P gives the eigenpair (lambda, P y) of A.
-   NOT proved (model + oracle-tape correspondence + side check): <= lambda_max (Courant-Fischer), that the extremal
-   micro eigenvalue is selected, the fixed-point clause, convergence of the inverse power iteration. *)
+     - UPPER BOUND (C08_rayleigh_gap, C08_below_bound_Z): if lambda G - A = B^H B (lambda is an upper bound of the pencil:
+       lambda G - A positive semi-definite, Cholesky), then for every x  lambda x^H G x - x^H A x = |B x|^2; with Ritz
+       consistency the returned value mu satisfies (lambda - mu) x^H G x = |B x|^2 >= 0 (instance over Z).
+   NOT proved (model + oracle-tape correspondence + side check): that a positive semi-definite matrix is a Gram matrix
+   (classical), that the extremal micro eigenvalue is selected, the fixed-point clause, convergence of the inverse power iteration. *)
 From Coq Require Import ZArith List Lia Arith.
 Import ListNotations.
-Require Import Ring Sums Matrix Core Chain Sweep SweepProof TensordotProof Env EnvProof EvpProof DeflationProof FullRankProof.
+Require Import Ring Sums Matrix Core Chain Sweep SweepProof TensordotProof Env EnvProof EvpProof DeflationProof FullRankProof RayleighBound.
 Open Scope cr_scope.
 
 Theorem C08_ritz_consistent (R : cring) (A0 G0 : core R) (Xs As Gs : list (core R)) m (yv : nat -> R) (lam : R) :
@@ -65,3 +68,24 @@ Theorem C08_full_rank_eigenpair (R : cring) (n r : nat) (P A : M R) (lam : R) (y
   forall i, (i < n)%nat -> sum n (fun j => A i j * lift r P y j) = lam * lift r P y i.
 Proof. intros H. exact (full_rank_eigen n r P A H lam y). Qed.
 Print Assumptions C08_full_rank_eigenpair.
+
+(* upper bound: with a positive-semidefiniteness certificate lambda G - A = B^H B, every Rayleigh quotient is <= lambda *)
+Theorem C08_rayleigh_gap (R : cring) (N K : nat) (A G B : M R) (lam : R) (x : nat -> R) :
+  (forall i j, (i < N)%nat -> (j < N)%nat -> lam * G i j - A i j = sum K (fun k => cconj R (B k i) * B k j)) ->
+  lam * quad N x G - quad N x A = sum K (fun k => cconj R (Bx N B x k) * Bx N B x k).
+Proof. exact (rayleigh_gap N K A G B lam x). Qed.
+Print Assumptions C08_rayleigh_gap.
+
+Theorem C08_below_bound_Z (N K : nat) (A G B : M Zring) (lam : Z) (x : nat -> Z) :
+  (forall i j, (i < N)%nat -> (j < N)%nat -> (lam * G i j - A i j)%Z = @sum Zring K (fun k => (B k i * B k j)%Z)) ->
+  (@quad Zring N x A <= lam * @quad Zring N x G)%Z.
+Proof. exact (below_bound_Z N K A G B lam x). Qed.
+Print Assumptions C08_below_bound_Z.
+
+(* non-vacuity: A = [[1,1],[1,1]] (eigenvalues 0, 2), G = I, lambda = 2: 2 I - A = [[1,-1],[-1,1]] = B^T B with B = (1, -1) *)
+Definition exA8c : M Zring := fun _ _ => 1%Z.
+Definition exG8c : M Zring := fun i j => if Nat.eqb i j then 1%Z else 0%Z.
+Definition exB8c : M Zring := fun _ j => if Nat.eqb j 0 then 1%Z else (-1)%Z.
+Example ex_certificate : forall i j, (i < 2)%nat -> (j < 2)%nat ->
+  (2 * exG8c i j - exA8c i j)%Z = @sum Zring 1 (fun k => (exB8c k i * exB8c k j)%Z).
+Proof. intros [|[|i]] [|[|j]] Hi Hj; try lia; vm_compute; reflexivity. Qed.
